@@ -274,7 +274,9 @@ prop("C11", ["prims.go", "c11.go"],
           quick={"max_reversals": 2, "race": True, "bound": "gRPC: two stdout chunks and one stderr chunk, each an opaque byte view of symbolic length 1..1024; all schedules with <= 2 reversals; happens-before race detection on the chunk buffer"},
           thorough={"max_reversals": 3, "race": True, "max_wall_s": 1500, "bound": "as quick with <= 3 reversals"}),
       run("composed", "harnessC11world", ["delivered", "written-before-attach"], files=WORLD,
-          quick={"bound": "host x plugin composed, net/rpc, gRPC and gRPC+mux, both launch methods: the plugin writes two stdout chunks and one stderr chunk (arbitrary contents, symbolic length 1..1024) to its process streams after serving began, before or after the host attached; what SyncStdout/SyncStderr received is compared with what was written"})],
+          quick={"bound": "host x plugin composed, net/rpc, gRPC and gRPC+mux, both launch methods: the plugin writes two stdout chunks and one stderr chunk (arbitrary contents, symbolic length 1..1024) to its process streams after serving began, before or after the host attached; what SyncStdout/SyncStderr received is compared with what was written"}),
+      run("second-host", "harnessC11secondHost", ["written-while-detached", "delivered-to-second-host"], files=WORLD,
+          quick={"bound": "gRPC plugin launched through exec.Cmd: a first host attaches and receives a chunk; its connection goes away with the plugin left running; the plugin writes a stdout and a stderr chunk while nobody is attached; a second host reattaches (real ReattachConfig / reattach) and the plugin writes again; chunks of symbolic content, length 1..1024; canonical schedule"})],
      ["bufio.Reader.Read returns 1..len(p) bytes (a view over the source's next bytes)", "stream model whose Send reads the message bytes at call time (marshalling)"] + WORLD_ASSUME, ["bufio.Reader.Read", "generated stdio stream"] + WORLD_STUBS,
      "> 3 chunks; chunks larger than 1 KiB on the composed run; io.Copy and the transports (delegated)",
      text="Bounded symbolic model checking of the real newGRPCStdioServer, both copyChan goroutines (writing into the real [1024]byte array), StreamStdio and grpcStdioClient.Run: every chunk arrives once, unchanged, in order, on the right writer; plus happens-before race detection on the buffer (which is what exposes an aliased/hoisted buffer).",
